@@ -215,10 +215,33 @@ pub fn run_c13(args: &[String]) {
             let (o, ms) = timed(&mut ctx, &mut |c| s.simplify(c, r));
             out.put(&ev(b, inst, "sparse", r, o, ms));
         }
+        // 2b. sweep: every expression the shared instance has met (all keys and values of its cache, i.e. also the
+        //     intermediate forms of rewrite chains) is queried as a root on the shared instance and on a fresh one
+        let mut swept: Vec<ExprRef> = vec![];
+        for (k, v) in s.verif_cache_entries() { swept.push(k); swept.push(v); }
+        swept.sort(); swept.dedup();
+        if swept.len() > 250 { swept.shuffle(&mut rng); swept.truncate(250); }
+        for &r in swept.iter() {
+            let (o, ms) = timed(&mut ctx, &mut |c| s.simplify(c, r));
+            out.put(&ev(b, inst, "sparse", r, o, ms));
+        }
+        for &r in swept.iter() {
+            inst += 1;
+            let (o, ms) = timed(&mut ctx, &mut |c| simplify_single_expression(c, r));
+            out.put(&ev(b, inst, "fresh", r, o, ms));
+        }
         // 3. one dense instance, reverse order
         inst += 1;
         let mut d = Simplifier::new(DenseExprMetaData::default());
         for &r in roots.iter().rev() {
+            let (o, ms) = timed(&mut ctx, &mut |c| d.simplify(c, r));
+            out.put(&ev(b, inst, "dense", r, o, ms));
+        }
+        let mut dswept: Vec<ExprRef> = vec![];
+        for (k, v) in d.verif_cache_entries() { dswept.push(k); dswept.push(v); }
+        dswept.sort(); dswept.dedup();
+        if dswept.len() > 150 { dswept.shuffle(&mut rng); dswept.truncate(150); }
+        for &r in dswept.iter() {
             let (o, ms) = timed(&mut ctx, &mut |c| d.simplify(c, r));
             out.put(&ev(b, inst, "dense", r, o, ms));
         }
